@@ -827,7 +827,8 @@ func checkC19(p *Prog, r *Report) {
 	if f := p.Fn("findIfaceForIP"); r.Anchor("findIfaceForIP", f != nil) {
 		n, ok := 0, true
 		why := ""
-		walkBody(f, func(x ast.Node) bool {
+		// (also inside a callback handed to slices.IndexFunc / ContainsFunc)
+		ast.Inspect(f.Body, func(x ast.Node) bool {
 			be, isB := x.(*ast.BinaryExpr)
 			if !isB || (be.Op != token.EQL && be.Op != token.NEQ) || p.isNilExpr(be.X) || p.isNilExpr(be.Y) {
 				return true
